@@ -6,7 +6,7 @@ from ..sim import Monitor
 from .common import all_demes, flat
 
 PROP = "C09"
-N_QUICK = 3000
+N_QUICK = 2000
 N_THOROUGH = 60000
 RULE = ("Plans: mechanisms that contain FarEnough / NBC_FarEnough (both factories and composed chains, norms 1 / 2 / "
         "inf, all thresholds, check_only_active on/off), siblings of every engine type (SEA, DE, SHADE, CMA-ES, local) "
@@ -71,6 +71,35 @@ class C09Monitor(Monitor):
         super().__init__(w)
         self.reported = set()
 
+    def _reference_mean(self, parent):
+        """Mean nearest-better distance of the parent's current population by the independent reference NBC
+        (None when the generator's parameters are unknown or the population is outside the definition's precondition)."""
+        from .c15 import reference_nbc
+        from .common import gb
+
+        w = self.w
+        sp = w.plan.get("sprout")
+        if sp is None:
+            tf = 0.7
+        elif sp.get("factory") == "nbc":
+            tf = float(sp["trunc_factor"])
+        elif "generator" in sp and sp["generator"]["kind"] != "best":
+            tf = float(sp["generator"]["truncation_factor"])
+        else:
+            return None
+        if not parent._active:
+            return None
+        pop = list(flat(parent)[-1])
+        if len({gb(i.genome) for i in pop}) != len(pop):
+            return None
+        fits = [float(i.fitness) for i in pop]
+        if any(x != x for x in fits):
+            return None
+        ref = reference_nbc(fits, [np.asarray(i.genome, dtype=float).tolist() for i in pop], bool(w.plan["maximize"]), 1.0, tf)
+        if ref.get("kept", 0) < 2 or not np.isfinite(ref["mean"]):
+            return None
+        return ref["mean"]
+
     def _centroids(self, tree, where):
         w = self.w
         for d in all_demes(tree):
@@ -124,6 +153,10 @@ class C09Monitor(Monitor):
                 md = cand.features.nbc_mean_distance
                 if md is None:
                     continue
+                ref = self._reference_mean(parent)
+                if ref is not None:
+                    w.probe("c09-threshold-from-reference-nbc-mean")
+                    md = ref
                 thr = float(f.min_distance_factor) * float(md)
             if thr != thr:
                 continue
